@@ -21,7 +21,7 @@ ID = "C09"
 LEVEL = "model_checking"
 MIN_OUTCOMES = 4
 MANIFEST = {
-    'text': "Complete enumeration of tag placements (absent / on HEAD's branch / only elsewhere) over alphabets containing every kind of tag the property names, for every scope (given by the config, or by --tag-scope on the command line against a config that names another scope), --ignore-vcs-tag, config position (incl. one whose string order differs from its version order) and 5 patterns (v2 date, SemVer with optional group, BUILD, SemVer with PYTAGNUM, legacy {pycalver}); `show`, `update --dry` and `update --dry --set-version <existing tag>` on the real CLI with tags served at the subprocess seam (git and a hg slice), a failing fetch (giving up is fine, going on without the tags is not), `.git` being a file (fake, and real repositories made with --separate-git-dir), all 120/720 listing orders, a 30-tag listing, and real git repositories (3 tags x placements x scopes, with and without a branch named like the newest tag): the start version must equal the reference scope rule under packaging order, no tag set may crash, an announced version must not equal an existing tag.",
+    'text': "Complete enumeration of tag placements (absent / on HEAD's branch / only elsewhere) over alphabets containing every kind of tag the property names, for every scope (given by the config, or by --tag-scope on the command line against a config that names another scope), --ignore-vcs-tag, config position (incl. one whose string order differs from its version order) and 5 patterns (v2 date, SemVer with optional group, BUILD, SemVer with PYTAGNUM, legacy {pycalver}); `show`, `update --dry` and `update --dry [--ignore-vcs-tag] --set-version <existing tag>` on the real CLI with tags served at the subprocess seam (git and a hg slice), a failing fetch (giving up is fine, going on without the tags is not), `.git` being a file (fake, and real repositories made with --separate-git-dir), all 120/720 listing orders, a 30-tag listing, and real git repositories (3 tags x placements x scopes, with and without a branch named like the newest tag): the start version must equal the reference scope rule under packaging order, no tag set may crash, an announced version must not equal an existing tag.",
     'note': 'more than 8 distinct tags per placement product; real hg is not available (hg listing format only through the fake)',
     'technique': 'explicit-state exploration: exhaustive enumeration of tag-set states x scopes on the real CLI against a reference rule',
 }
